@@ -611,6 +611,10 @@ func c08Misuse(literal bool) {
 	variant := simrt.Draw(4)
 	c := simrt.DrawRange(0, 2)
 	extra := []int{1, 1, 2, math.MaxInt32}[simrt.Draw(4)]
+	wide := 0 // out-of-range deltas beyond 32 bits (int is 64 bits wide here)
+	if simrt.Chance(1, 2) {
+		wide = simrt.DrawRange(1, 3)
+	}
 	nLater := simrt.DrawRange(1, 5)
 	later := make([]int, nLater) // 0 Send, 1 Add(0), 2 Add(1), 3 Add(-1)
 	for i := range later {
@@ -651,6 +655,17 @@ func c08Misuse(literal bool) {
 			got = make([]int, c)
 		}
 		delta := math.MaxInt32 + extra
+		switch wide {
+		case 1:
+			delta = 1 << 32 // low 32 bits zero: looks like Add(0) if truncated
+		case 2:
+			delta = 1<<32 + extra%1000 // low 32 bits small: looks like a legal Add if truncated
+		case 3:
+			delta = 1<<40 + math.MaxInt32
+		}
+		if wide != 0 {
+			simrt.Probe("oob_delta_beyond_32_bits")
+		}
 		if variant == 1 {
 			delta = -delta
 		}
